@@ -168,7 +168,7 @@ class Observer:
             raise VerifStepLimit()
         try:
             self._step(function, pc, ins, args, localScope, globalScope)
-        except VerifStepLimit:
+        except (VerifStepLimit, RecursionError):
             raise
         except Exception as e:  # the monitor must never perturb the run it observes
             if len(self.harness_errors) < 5:
